@@ -360,3 +360,33 @@ Proof.
 Qed.
 
 Print Assumptions shifted_prefix_viable_partial.
+
+(* ---------- the two checks on concrete item sets ---------- *)
+Require Ctpg.Proofs.LRValidCex Ctpg.Proofs.ReportCex.
+
+Definition gen_checks (g : grammar) : option (bool * bool * bool) :=
+  match gen g with
+  | inl (st, tb) => let sts := map st_all st in
+                    Some (validate g sts tb, closure_generatedb g sts, states_nonemptyb sts)
+  | inr _ => None
+  end.
+
+(* E -> E + T | T ; T -> T * F | F ; F -> ( E ) | id.  terms + * ( ) id <eof> <err>; nonterminals E T F ## *)
+Definition g_expr :=
+  mkG 7 4 7 3
+      [[NT 0; T 0; NT 1]; [NT 1]; [NT 1; T 1; NT 2]; [NT 2]; [T 2; NT 0; T 3]; [T 4]; [NT 0]]
+      [mkRI 0 0 3; mkRI 0 1 1; mkRI 1 2 3; mkRI 1 3 1; mkRI 2 4 3; mkRI 2 5 1; mkRI 3 6 1]
+      [(0,2);(2,2);(4,2);(6,1)]
+      [0%Z;0%Z;0%Z;0%Z;0%Z;0%Z;0%Z] [NoAssoc;NoAssoc;NoAssoc;NoAssoc;NoAssoc;NoAssoc;NoAssoc]
+      [0%Z;0%Z;0%Z;0%Z;0%Z;0%Z;0%Z] [NoAssoc;NoAssoc;NoAssoc;NoAssoc;NoAssoc;NoAssoc;NoAssoc]
+      [Some 0; None; Some 1; None; Some 3; Some 4; None].
+
+(* the tables the mirror generator writes pass both checks; the item sets of the counterexamples do not *)
+Example generated_pass :
+  (gen_checks LRValidCex.g1, gen_checks LRValidCex.g2, gen_checks ReportCex.g2, gen_checks g_expr) =
+  (Some (true, true, true), Some (true, true, true), Some (true, true, true), Some (true, true, true)).
+Proof. vm_compute. reflexivity. Qed.
+
+Example junk_fails :
+  closure_generatedb ReportCex.g1 ReportCex.sts1 = false /\ closure_generatedb ReportCex.g2 ReportCex.sts2 = false.
+Proof. vm_compute. auto. Qed.
